@@ -460,3 +460,35 @@ def mk_overlap(same):
 
 mk_overlap(True)
 mk_overlap(False)
+
+
+# ------------------------------------------------------------------ XsdWildcard.__copy__: the copy owns its sets (every in-place operation above relies on it)
+t = Target('wildcards.XsdWildcard.__copy__', ['C16', 'C03', 'C14'], F, 'XsdWildcard.__copy__', bounded_only=True,
+           note='run-time contract on the real method: a copied wildcard has equal but DISTINCT namespace / notNamespace / notQName sets and errors list, the same processContents and the same '
+                'schema objects; union() and intersection() work in place on a copy (attribute groups, extensions), so a shared set would change the wildcard of the referenced group',
+           assumes=['the slot loop over _mro_slots() (setattr by computed name) is outside the executor subset: bounded stand-in over element and attribute wildcards of both classes'])
+
+
+@t.concrete
+def _(inp):
+    w = real_wc(inp['ver'], inp['kind'], dict(namespace=inp['namespace'], not_namespace=inp['not_namespace'], not_qname=inp['not_qname'], tns='urn:tpl'), inp['pc'])
+    c = copy(w); problems = []
+    for fld in ('namespace', 'not_namespace', 'not_qname', 'errors'):
+        a, b = getattr(w, fld), getattr(c, fld)
+        if a != b and not (not a and not b): problems.append(f'{fld} differs in the copy')
+        if isinstance(a, (set, list)) and a is b: problems.append(f'{fld} is shared with the original')
+    if c.process_contents != w.process_contents or c.schema is not w.schema or c.target_namespace != w.target_namespace: problems.append('a configuration attribute differs')
+    before = state_of(w, 'urn:tpl')
+    c.namespace.add('urn:zz'); c.namespace.discard('##any')
+    if isinstance(c.not_namespace, set): c.not_namespace.add('urn:zz')
+    if state_of(w, 'urn:tpl') != before: problems.append('changing the sets of the copy changes the original')
+    return dict(ok=not problems, observed=problems or 'ok', required='equal and distinct sets')
+
+
+@t.scope
+def _(tier, rng):
+    for ver in ('1.0', '1.1'):
+        for kind in ('elem', 'attr'):
+            for ns, nn, nq in ((['##any'], [], []), (['##other'], [], []), (['urn:a', ''], [], []), ([], ['urn:a'], []), (['##any'], [], ['{urn:a}x']), ([], [], [])):
+                if ver == '1.0' and (nn or nq): continue
+                for pc in ('strict', 'lax'): yield dict(ver=ver, kind=kind, namespace=ns, not_namespace=nn, not_qname=nq, pc=pc)
